@@ -29,7 +29,7 @@ PID = "C13"
 LEVEL = "model_checking"
 NUMBA_THREADS = 16
 DETERMINISM_IS_PROPERTY = True
-REDUCED = {'quick': 'query lists of length 3: one in ten, with every third schedule and two of four poisons; annotate: a quarter of the ordered triples', 'thorough': 'annotate_seqlets: one ninth of the ordered 4-subsets'}
+REDUCED = {'quick': 'query lists of length 3: one in ten, with every third schedule and two of four poisons; annotate: a quarter of the ordered triples; n_nearest: two of the four (strand mode, hashing) combinations per target set', 'thorough': 'annotate_seqlets: one ninth of the ordered 4-subsets'}
 RULE = ("states = (query list, poison, thread assignment, order) nodes reached = model executions of the real _tomtom body; "
         "transitions = prange iterations executed under the controlled scheduler (each with a measured scratch footprint); "
         "traces validated = compiled tomtom()/annotate_seqlets runs compared bit for bit with the model run; non-trivial = "
